@@ -26,7 +26,7 @@ From CL Require Import Base.Sx Base.Res Base.Str Model.AddRemove Model.Channels
                        Model.Entry Model.Parse Model.ParseFormats Proofs.C02Blocks
                        Proofs.MergeShape Proofs.PropsShape Proofs.MergeReparse15 Proofs.SerializeReparse16
                        Proofs.PropsView Proofs.PropsWrap Proofs.SerializeIdem.
-From CL Require Proofs.C02BlocksDtd Proofs.DtdShape Proofs.DtdReparse.
+From CL Require Proofs.C02BlocksDtd Proofs.DtdShape Proofs.DtdReparse Proofs.DtdView.
 From Coq Require Import Lia.
 Import ListNotations.
 Local Open Scope nat_scope.
@@ -364,10 +364,10 @@ Qed.
    (walk_dtd) without junk; the entities are, with name and value, the entities of the output
    entry list: the reference keys with a value in reference order; the standalone comments are
    its comment entries.
-   _partial: [wrap_dtd] is not proved equal to the model's apply_wrap over the parse's spans
-   (for .properties that link is C16_wrap_props_is_model_wrap); the WRAP suite compares
-   apply_wrap with the implementation. *)
-Theorem C16_reparse_dtd_partial : forall m rbs obs wrap nd name txt,
+   [wrap_dtd] is the model's apply_wrap over the parse's spans on every entity of the parse
+   (C16_wrap_dtd_is_model_wrap), and the entries handed to the theorem are the view of the
+   parser's output (C15_parse_view_dtd). *)
+Theorem C16_reparse_dtd : forall m rbs obs wrap nd name txt,
   DtdReparse.dversion_ok m rbs -> DtdReparse.dversion_ok m obs -> NoDup (map fst nd) ->
   wrap_ok wrap -> DtdReparse.dtd_wrap wrap ->
   (forall k raw, In (k, Some raw) nd -> DtdReparse.legal_dtd_raw raw = true) ->
@@ -386,6 +386,14 @@ Proof. exact DtdReparse.serialize_reparse_dtd. Qed.
 
 Theorem C16_wrap_dtd_contract : wrap_ok DtdReparse.wrap_dtd /\ DtdReparse.dtd_wrap DtdReparse.wrap_dtd.
 Proof. exact DtdReparse.wrap_dtd_contract. Qed.
+
+(* on every entity of the parse of a legal DTD block list, the model's Entity.wrap (apply_wrap
+   over the parse context and the entity's spans) is wrap_dtd *)
+Theorem C16_wrap_dtd_is_model_wrap : forall bs, Forall C02BlocksDtd.legal_block bs -> DtdShape.no_pe bs ->
+  forall e, In e (C02BlocksDtd.entries_of bs) -> e_kind e = KEntity -> forall raw,
+  apply_wrap (C02BlocksDtd.file_text bs) (wrap_info_of e) (c_key (DtdView.dview (C02BlocksDtd.file_text bs) e)) raw =
+  DtdReparse.wrap_dtd (DtdView.dview (C02BlocksDtd.file_text bs) e) raw.
+Proof. exact DtdView.wrap_view_dtd. Qed.
 
 (* reference  <!ENTITY a "A">\n<!--c-->\n\n<!ENTITY b "B">\n   old  <!ENTITY a "la">\n   new {b: "nb"} *)
 Definition de (k v : list nat) : C02BlocksDtd.block :=
@@ -425,4 +433,37 @@ Example C16_example_reparse_dtd :
 Proof.
   eexists. eexists. split; [vm_compute; reflexivity|]. split; [vm_compute; reflexivity|].
   split; [vm_compute; reflexivity|]. split; vm_compute; reflexivity.
+Qed.
+
+(* Text-level idempotence is FALSE in general, also under all premises of C16_reparse_properties:
+   reference  x = X / <3 blank lines> / y = Y / z = Z ,  old  x = lx / y = ly / # note / <blank> / z = lz ,
+   new_data {y: None}.  The first output is  x = lx / <3 blank lines> / # note / <blank> / z = lz ;
+   serialized again from its own parse the old file's comment gets the three blank lines a
+   second time:  ... # note / <3 blank lines> / z = lz .  (In the first run the reference's
+   whitespace after x is folded in front of the old file's comment, in the second run the
+   comment's own whitespace meets it again: merge order puts everything that follows x in the
+   old file before the reference's whitespace.)  Entities are the same (C16_idempotent).
+   Premise under which the text is stable, by the analysis of the merge order (not proved
+   beyond C16_idempotent_text_partial): no standalone comment of the old localization that is
+   not a reference comment survives next to a reference entity whose placeholder is pruned —
+   in particular: every standalone comment of the old file is a reference comment. *)
+Definition ir_ref : list block := [pe [120] [88]; BBlank (A [10;10;10]); pe [121] [89]; pe [122] [90]].
+Definition ir_old : list block :=
+  [pe [120] [108;120]; pe [121] [108;121]; BComment [(35%N, A [32;110;111;116;101])]; BBlank (A [10]);
+   pe [122] [108;122]].
+Definition ir_out : list block :=
+  [pe [120] [108;120]; BBlank (A [10;10;10]); BComment [(35%N, A [32;110;111;116;101])]; BBlank (A [10]);
+   pe [122] [108;122]].
+Theorem C16_idempotent_text_refuted :
+  let R := number 0 (centries_of ir_ref) in
+  let L := number (length (centries_of ir_ref)) (centries_of ir_old) in
+  let name := s [102;46;112;114;111;112;101;114;116;105;101;115] in
+  version_ok 2 ir_ref /\ version_ok 2 ir_old /\ version_ok 2 ir_out /\
+  exists txt txt2,
+    serialize wrap_props name R L [(A [121], None)] = Ok txt /\ file_text ir_out = txt /\
+    serialize wrap_props name R (number 100 (centries_of ir_out)) [] = Ok txt2 /\ txt2 <> txt.
+Proof.
+  split; [version_ok_tac|]. split; [version_ok_tac|]. split; [version_ok_tac|].
+  eexists. eexists. split; [vm_compute; reflexivity|]. split; [vm_compute; reflexivity|].
+  split; [vm_compute; reflexivity|]. vm_compute. discriminate.
 Qed.
